@@ -11,6 +11,7 @@ import (
 	"verif/harness/chk"
 	"verif/harness/explore"
 	"verif/harness/gow"
+	"verif/harness/model"
 	"verif/harness/ref"
 )
 
@@ -223,8 +224,17 @@ func c07AttBody(nWork int) explore.Body {
 	return func(x *explore.Ctx) *explore.Verdict { return c07Att(x, nWork) }
 }
 
+// c07Crafted: attachments whose field sizes make a single flipped bit of the name length (resp.
+// media type length) swallow exactly the rest of the record, so that the next field read meets the
+// end of the record with zero bytes available.
+func c07Crafted() *model.Content {
+	a3 := &ref.Attachment{LogTime: 1, CreateTime: 2, Name: "n", MediaType: "abc", Data: []byte("0123456789abc")}
+	a4 := &ref.Attachment{LogTime: 3, CreateTime: 4, Name: "nn", MediaType: "abc", Data: []byte("wxyz")}
+	return model.Fixed(model.Headers[0], model.Chn(model.C0), model.Msg(0, 1, 3, 0), model.Att(a3), model.Msg(0, 2, 3, 0), model.Att(a4), model.Msg(0, 3, 3, 0))
+}
+
 func c07Att(x *explore.Ctx, nWork int) *explore.Verdict {
-	f := chooseFile(x, nWork, []rfMode{{false, 0, ""}, {true, 64, ""}}, true)
+	f := chooseFileFrom(x, append([]*model.Content{c07Crafted()}, rfWorkloads()...), nWork+1, []rfMode{{false, 0, ""}, {true, 64, ""}}, true)
 	var atts []*ref.Rec
 	for i := range f.dec.Recs {
 		if f.dec.Recs[i].Op == ref.OpAttachment {
